@@ -15,9 +15,9 @@ import (
 )
 
 type (
-	File     = os.File
-	FileMode = os.FileMode
-	FileInfo = os.FileInfo
+	File      = os.File
+	FileMode  = os.FileMode
+	FileInfo  = os.FileInfo
 	PathError = os.PathError
 )
 
@@ -48,6 +48,8 @@ var (
 	Hook   func(name string, data []byte)
 )
 
+var fsMon vs.Monitor
+
 func Reset() { Files = map[string][]byte{}; Writes = map[string]int{}; Log = nil }
 
 func dirOK(name string) error {
@@ -65,7 +67,7 @@ func WriteFile(name string, data []byte, perm fs.FileMode) (err error) {
 	if Real {
 		return os.WriteFile(name, data, perm)
 	}
-	vs.Gate("fs.Write", name, nil, func() {
+	fsMon.Do("fs.Write", name, nil, func() {
 		if err = dirOK(name); err != nil {
 			return
 		}
@@ -83,7 +85,7 @@ func ReadFile(name string) (data []byte, err error) {
 	if Real {
 		return os.ReadFile(name)
 	}
-	vs.Gate("fs.Read", name, nil, func() {
+	fsMon.Do("fs.Read", name, nil, func() {
 		b, ok := Files[name]
 		if !ok {
 			err = &os.PathError{Op: "open", Path: name, Err: syscall.ENOENT}
@@ -103,18 +105,18 @@ func Names() []string {
 	return n
 }
 
-func Create(name string) (*os.File, error)                         { return os.Create(name) }
-func Open(name string) (*os.File, error)                           { return os.Open(name) }
-func OpenFile(n string, f int, p os.FileMode) (*os.File, error)    { return os.OpenFile(n, f, p) }
-func Remove(name string) error                                     { return os.Remove(name) }
-func RemoveAll(name string) error                                  { return os.RemoveAll(name) }
-func Stat(name string) (os.FileInfo, error)                        { return os.Stat(name) }
-func MkdirAll(p string, m os.FileMode) error                       { return os.MkdirAll(p, m) }
-func Mkdir(p string, m os.FileMode) error                          { return os.Mkdir(p, m) }
-func Getenv(k string) string                                       { return os.Getenv(k) }
-func Exit(c int)                                                   { os.Exit(c) }
-func IsNotExist(err error) bool                                    { return os.IsNotExist(err) }
-func IsExist(err error) bool                                       { return os.IsExist(err) }
-func TempDir() string                                              { return os.TempDir() }
-func Rename(a, b string) error                                     { return os.Rename(a, b) }
-func Getpid() int                                                  { return os.Getpid() }
+func Create(name string) (*os.File, error)                      { return os.Create(name) }
+func Open(name string) (*os.File, error)                        { return os.Open(name) }
+func OpenFile(n string, f int, p os.FileMode) (*os.File, error) { return os.OpenFile(n, f, p) }
+func Remove(name string) error                                  { return os.Remove(name) }
+func RemoveAll(name string) error                               { return os.RemoveAll(name) }
+func Stat(name string) (os.FileInfo, error)                     { return os.Stat(name) }
+func MkdirAll(p string, m os.FileMode) error                    { return os.MkdirAll(p, m) }
+func Mkdir(p string, m os.FileMode) error                       { return os.Mkdir(p, m) }
+func Getenv(k string) string                                    { return os.Getenv(k) }
+func Exit(c int)                                                { os.Exit(c) }
+func IsNotExist(err error) bool                                 { return os.IsNotExist(err) }
+func IsExist(err error) bool                                    { return os.IsExist(err) }
+func TempDir() string                                           { return os.TempDir() }
+func Rename(a, b string) error                                  { return os.Rename(a, b) }
+func Getpid() int                                               { return os.Getpid() }
